@@ -16,7 +16,22 @@ func (g *gen) ifaceRecv(d int) (string, bool) {
 }
 
 func (g *gen) pureCallInt(d int) string {
-	switch g.weighted([]int{3, 3, 3, 3, 2, 1}, "purecall") {
+	switch g.weighted([]int{3, 3, 3, 3, 2, 1, 2}, "purecall") {
+	case 6:
+		// f(g()) with a multi-result g: every flattened result is converted to its
+		// parameter type (here: a concrete type to an interface), not only the first
+		g.feat("chained-multi-result-call")
+		a, b := g.nc(tInt, d), g.expr(tInt, d)
+		switch g.intn(4, "chainkind") {
+		case 0:
+			return "func() int { g := func() (int, *T2) { return " + a + ", &T2{W: " + b + "} }; f := func(x int, i I) int { return x + i.Get() }; return f(g()) }()"
+		case 1:
+			return "func() int { g := func() (int, MyErr) { return " + a + ", MyErr{Code: " + b + "} }; f := func(x int, e error) int { return x + len(e.Error()) }; return f(g()) }()"
+		case 2:
+			return "func() int { g := func() (T1, int, T3) { return T1{V: " + a + "}, " + b + ", T3(2) }; f := func(i I, x int, j any) int { _, ok := j.(I); return i.Get() + x + len(btoa(ok)) }; return f(g()) }()"
+		default:
+			return "func() (r int) { g := func() (int, *T2) { return " + a + ", &T2{W: " + b + "} }; f := func(x int, is ...I) { for _, i := range is { r += x + i.Get() } }; defer f(g()); return 1 }()"
+		}
 	case 0:
 		r, maybeNil := g.ifaceRecv(d)
 		if !maybeNil || g.risky("icall") {
@@ -192,8 +207,31 @@ func (g *gen) iife(d int) string {
 var cmpOps = []string{"==", "!=", "<", "<=", ">", ">="}
 
 func (g *gen) boolOp(d int) string {
-	w := []int{10, 3, 4, 3, 5, 4, 2, 1, 2, 3}
+	w := []int{10, 3, 4, 3, 5, 4, 2, 1, 2, 3, 3}
 	switch g.weighted(w, "boolop") {
+	case 10:
+		// comparisons, negations and short-circuit operators at a named boolean type:
+		// the comparison's result is converted to the type the expression is used at
+		g.feat("named-bool")
+		c1 := "(" + g.nc(tInt, d) + " " + pickOf(g, cmpOps, "cmp") + " " + g.expr(tInt, d) + ")"
+		c2 := "(" + g.nc(tInt, d) + " " + pickOf(g, cmpOps, "cmp") + " " + g.expr(tInt, d) + ")"
+		h := g.nc(tBool, d)
+		var e string
+		switch g.intn(6, "nbkind") {
+		case 0:
+			e = "flag(" + h + ") && " + c1
+		case 1:
+			e = c1 + " || flag(" + h + ")"
+		case 2:
+			e = "!" + c1 + " == flag(" + h + ")"
+		case 3:
+			e = "flag(" + h + ") != " + c1
+		case 4:
+			e = "(" + c1 + " && " + c2 + ") == flag(" + h + ")"
+		default:
+			return "func() bool { type flag bool; var f flag = " + c1 + "; if !f || " + c2 + " { f = !f }; return bool(f) }()"
+		}
+		return "func() bool { type flag bool; return bool(" + e + ") }()"
 	case 9:
 		// short-circuit operator with a constant operand in value context: the builder folds
 		// the constant edge of the phi and the block optimiser threads jumps through it
